@@ -5,6 +5,7 @@ import ast
 
 from ..facts import CONTEXT_FREE, LP_CLASS, calls_of, first_call, walk
 from ..model import norm_stmt
+from .c15 import _inline
 from .common import facts, parent, value_dead
 from . import derive
 from .kill import is_object_publish, loc_of_target
@@ -110,6 +111,47 @@ def check_copy_arms(ctx, F):
     ctx.floor("R13.1", "copy statements in _copy_arms", n, 12)
 
 
+def _candidates(lo):
+    """(dictionary name, key variable, value expression, key source, line of the filling loop or None) of the
+    per-cold-arm candidate dictionary, written as a filling loop or as a dict comprehension"""
+    for s in lo.body:
+        if isinstance(s, ast.For) and isinstance(s.target, ast.Name):
+            st = [x for x in ast.walk(s) if isinstance(x, ast.Assign) and isinstance(x.targets[0], ast.Subscript)
+                  and isinstance(x.targets[0].value, ast.Name)]
+            if st and ast.unparse(st[0].targets[0].slice) == s.target.id:
+                return st[0].targets[0].value.id, s.target.id, st[0].value, s.iter, s.lineno
+        if isinstance(s, ast.Assign) and isinstance(s.targets[0], ast.Name) and isinstance(s.value, ast.DictComp) \
+                and len(s.value.generators) == 1 and isinstance(s.value.generators[0].target, ast.Name) and \
+                ast.unparse(s.value.key) == s.value.generators[0].target.id:
+            g = s.value.generators[0]
+            return s.targets[0].id, g.target.id, s.value.value, g.iter, None
+    return None
+
+
+def _subset_of_trained(e):
+    """is the expression a sub-collection of self.trained_arms (whatever its container type and filter)?"""
+    if isinstance(e, ast.Attribute):
+        return ast.unparse(e) == "self.trained_arms"
+    if isinstance(e, ast.Call):
+        if isinstance(e.func, ast.Name) and e.func.id in ("set", "list", "sorted", "tuple", "frozenset") and e.args:
+            return _subset_of_trained(e.args[0])
+        if isinstance(e.func, ast.Attribute) and e.func.attr in ("intersection", "difference", "copy"):
+            return _subset_of_trained(e.func.value)
+        if isinstance(e.func, ast.Name) and e.func.id == "filter" and len(e.args) == 2:
+            return _subset_of_trained(e.args[1])
+        return False
+    if isinstance(e, ast.BinOp):
+        if isinstance(e.op, ast.BitAnd):
+            return _subset_of_trained(e.left) or _subset_of_trained(e.right)
+        if isinstance(e.op, ast.Sub):
+            return _subset_of_trained(e.left)
+        return False
+    if isinstance(e, (ast.ListComp, ast.SetComp, ast.GeneratorExp)) and len(e.generators) == 1:
+        g = e.generators[0]
+        return isinstance(g.target, ast.Name) and ast.unparse(e.elt) == g.target.id and _subset_of_trained(g.iter)
+    return False
+
+
 def check_mapping(ctx):
     prog = ctx.prog
     fn = prog.method("BaseMAB", "_get_cold_arm_to_warm_arm")
@@ -117,29 +159,39 @@ def check_mapping(ctx):
     outer = [s for s in fn.node.body if isinstance(s, ast.For)]
     ok = False
     detail = ""
-    if outer:
+    rets = [s for s in fn.node.body if isinstance(s, ast.Return)]
+    mapname = rets[-1].value.id if rets and isinstance(rets[-1].value, ast.Name) else None
+    if outer and mapname and len(fn.params) >= 3:
         lo = outer[0]
         cold = ast.unparse(lo.target)
         ok_outer = ast.unparse(lo.iter) == "self.cold_arms"
         inner = [s for s in lo.body if isinstance(s, ast.For)]
         ok_inner = False
         cand = None
-        if inner:
-            li = inner[0]
-            a = ast.unparse(li.target)
-            ok_inner = ast.unparse(li.iter) == "self.trained_arms"
-            st = [s for s in ast.walk(li) if isinstance(s, ast.Assign) and isinstance(s.targets[0], ast.Subscript)]
-            if st:
-                cand = ast.unparse(st[0].targets[0].value)
-                ok_inner = ok_inner and ast.unparse(st[0].targets[0].slice) == a and \
-                    ast.unparse(st[0].value) == "distance_from_to[%s][%s]" % (cold, a)
-        src = " ".join(ast.unparse(lo).split())
-        ok_sel = cand is not None and ("closest_arm = argmin(%s)" % cand) in src and \
-            ("closest_distance = distance_from_to[%s][closest_arm]" % cold) in src
-        guards = [s for s in lo.body if isinstance(s, ast.If) and "closest_distance" in ast.unparse(s.test)]
-        ok_guard = bool(guards) and ast.unparse(guards[-1].test) in ("closest_distance <= distance_threshold",
-                                                                     "distance_threshold >= closest_distance") and \
-            ast.unparse(guards[-1].body[0]) == "new_cold_arm_to_warm_arm[%s] = closest_arm" % cold
+        dft = "self._get_pairwise_distances(%s)" % fn.params[1]
+        thr = "self._get_distance_threshold(%s, quantile=%s)" % (dft, fn.params[2])
+
+        def T(e):
+            return " ".join(ast.unparse(_inline(fn.node, e, stop={cand, mapname})).split())
+        form = _candidates(lo)
+        if form is not None:
+            cand, a, val, src, pos = form
+            ok_inner = _subset_of_trained(_inline(fn.node, src, stop={cand, mapname})) and \
+                T(val) == "%s[%s][%s]" % (dft, cold, a)
+            if pos is not None:
+                # loop form: the candidate dictionary starts empty for every cold arm
+                fresh = [s for s in lo.body if isinstance(s, ast.Assign) and ast.unparse(s.targets[0]) == cand]
+                ok_inner = ok_inner and len(fresh) == 1 and ast.unparse(fresh[0].value) in ("{}", "dict()") and \
+                    fresh[0].lineno < pos
+        closest = "argmin(%s)" % cand
+        dist = "%s[%s][%s]" % (dft, cold, closest)
+        guards = [s for s in lo.body if isinstance(s, ast.If) and any(
+            isinstance(x, ast.Assign) and ast.unparse(x.targets[0]) == "%s[%s]" % (mapname, cold) for x in s.body)]
+        stores = [x for x in ast.walk(fn.node) if isinstance(x, ast.Assign) and isinstance(x.targets[0], ast.Subscript)
+                  and ast.unparse(x.targets[0].value) == mapname]
+        ok_sel = cand is not None and len(stores) == 1 and len(guards) == 1 and T(stores[0].value) == closest
+        ok_guard = ok_sel and T(guards[0].test) in ("%s <= %s" % (dist, thr), "%s >= %s" % (thr, dist)) and \
+            not guards[0].orelse
         ok = ok_outer and ok_inner and ok_sel and ok_guard
         detail = "outer over cold_arms: %s, candidates from trained_arms: %s, argmin over candidates: %s, inclusive " \
                  "guard: %s" % (ok_outer, ok_inner, ok_sel, ok_guard)
@@ -153,31 +205,40 @@ def check_mapping(ctx):
 
 
 def check_status(ctx, F):
+    from .pattern import match, find
     prog = ctx.prog
     base = prog.cls("BaseMAB")
     cold = base.methods["cold_arms"]
     trained = base.methods["trained_arms"]
     cs = " ".join(ast.unparse(cold.node.body[-1]).split())
     ts = " ".join(ast.unparse(trained.node.body[-1]).split())
-    ctx.check(cs == "return [arm for arm in self.arms if not self.arm_to_status[arm][IS_TRAINED] and (not "
-                    "self.arm_to_status[arm][IS_WARM])]", "R13.4", "cold_arms = arms that are neither trained nor warm",
-              cold.node, cold, cs, construct="def BaseMAB.cold_arms")
-    ctx.check(ts == "return [arm for arm in self.arms if self.arm_to_status[arm][IS_TRAINED]]", "R13.4",
+    ctx.check(match("return [_A_ for _A_ in self.arms if not self.arm_to_status[_A_][IS_TRAINED] and (not "
+                    "self.arm_to_status[_A_][IS_WARM])]", cold.node.body[-1]) is not None, "R13.4",
+              "cold_arms = arms that are neither trained nor warm", cold.node, cold, cs,
+              construct="def BaseMAB.cold_arms")
+    ctx.check(match("return [_A_ for _A_ in self.arms if self.arm_to_status[_A_][IS_TRAINED]]",
+                    trained.node.body[-1]) is not None, "R13.4",
               "trained_arms = arms that are trained", trained.node, trained, ts, construct="def BaseMAB.trained_arms")
     ws = prog.method("BaseMAB", "_warm_start")
-    body = [s for s in ws.node.body if not (isinstance(s, ast.Expr) and isinstance(s.value, ast.Constant))]
-    src = [" ".join(ast.unparse(s).split()) for s in body]
-    ok = len(src) == 3 and src[0] == "cold_arm_to_warm_arm = self._get_cold_arm_to_warm_arm(arm_to_features, " \
-                                     "distance_quantile)" and src[1] == "self._copy_arms(cold_arm_to_warm_arm)" and \
-        src[2].startswith("for cold_arm, warm_arm in cold_arm_to_warm_arm.items():") and \
-        "self.arm_to_status[cold_arm][IS_WARM] = True" in src[2] and \
-        "self.arm_to_status[cold_arm][WARM_STARTED_BY] = warm_arm" in src[2]
+    pat = """
+_M_ = self._get_cold_arm_to_warm_arm(%s, %s)
+self._copy_arms(_M_)
+for _C_, _W_ in _M_.items():
+    ...
+    self.arm_to_status[_C_][IS_WARM] = True
+    ...
+    self.arm_to_status[_C_][WARM_STARTED_BY] = _W_
+    ...
+""" % (ws.params[1], ws.params[2])
+    ok = match(pat, ws.node.body) is not None or match(pat.replace("IS_WARM", "@").replace(
+        "WARM_STARTED_BY] = _W_", "IS_WARM] = True").replace("@] = True", "WARM_STARTED_BY] = _W_"),
+        ws.node.body) is not None
     ctx.check(ok, "R13.4", "_warm_start: compute the mapping, copy, then mark exactly the mapping's keys as warm", ws.node,
               ws, construct="def BaseMAB._warm_start")
     st = prog.method("BaseMAB", "_set_arms_as_trained")
     ok2 = False
     for node in ast.walk(st.node):
-        if isinstance(node, ast.Assign) and ast.unparse(node.targets[0]) == "self.arm_to_status[arm][IS_WARM]":
+        if isinstance(node, ast.Assign) and match("self.arm_to_status[_A_][IS_WARM] = _EV_", node) is not None:
             g = parent(node)
             ok2 = isinstance(g, ast.If) and ast.unparse(g.test) == "not is_partial"
     ctx.check(ok2, "R13.4", "the warm flag is cleared only by a non-partial fit", st.node, st,
